@@ -214,6 +214,56 @@ func TestVerif_C08(t *testing.T) {
 	}, c08Check, "each printable literal as key, as value, nested, all cuts") {
 		return
 	}
+	if vfOnlySub("selfsum") && !vfReplayMode() && vfShard() == 0 {
+		// documents that carry, at the offset of a tar header's checksum field, a NUMBER equal to
+		// the tar checksum of their own first 512 bytes
+		n := 0
+		for _, fill := range []byte{'z', 'm', '~', 'Q'} {
+			for _, v := range []struct {
+				digits int
+				tail   string
+			}{{6, " ,"}, {6, "  "}, {6, ",1"}, {6, "\t,"}, {5, " ,1"}, {5, "   "}, {6, ".5"}, {6, "e0"}} {
+				for _, shape := range []int{0, 1} {
+					var doc []byte
+					if shape == 0 { // array: ["zzz...",<number>,"zzz..."]
+						doc = append(doc, "[\""...)
+						doc = append(doc, bytes.Repeat([]byte{fill}, 144)...)
+						doc = append(doc, "\","...)
+						doc = append(doc, "00000000"...)
+						doc = append(doc, "\""...)
+						doc = append(doc, bytes.Repeat([]byte{fill}, 400)...)
+						doc = append(doc, "\"]"...)
+					} else { // object: {"zzz...":<number>,"k":"zzz..."}
+						doc = append(doc, "{\""...)
+						doc = append(doc, bytes.Repeat([]byte{fill}, 144)...)
+						doc = append(doc, "\":"...)
+						doc = append(doc, "00000000"...)
+						doc = append(doc, "\"k\":\""...)
+						doc = append(doc, bytes.Repeat([]byte{fill}, 400)...)
+						doc = append(doc, "\"}"...)
+					}
+					p := vfSelfSum(doc, v.digits, v.tail)
+					if p == nil || !ejson.Valid(p) {
+						continue
+					}
+					n++
+					c := c08Case{Doc: p}
+					r := c08Check(c)
+					r.Nontrivial = true
+					r.Labels = append(r.Labels, "selfsum")
+					vfStats.record(r, func() any { return map[string]any{"sub": "selfsum", "field": string(p[148:156]), "shape": shape} })
+					if r.Err != nil {
+						vfEnumFail(t, "C08", "gen", c, r.Err)
+						return
+					}
+				}
+			}
+		}
+		vfStats.Subchecks["selfsum"] = fmt.Sprintf("%d documents whose bytes 148..155 spell the tar checksum of their first block", n)
+	}
+	if t.Failed() {
+		return
+	}
 	if vfOnlySub("gen") {
 		vfRun(t, vfSub[c08Case]{
 			Prop: "C08", Name: "gen", Checks: vfN(12000, 3000000),
